@@ -44,7 +44,7 @@ macro_rules! one_token_contract {
 
 pub fn h_any<M: VMode>() {
     run::<u8, VErr, (), _>(|inp, s0| {
-        let r = any::<SymIn<u8>, X<VErr>>().go::<M>(inp);
+        let r = any::<SymIn<u8>, X<VErr>>().gov::<M>(inp);
         let here = tok_here(inp, &s0);
         one_token_contract!("any", inp, s0, r, here, here.is_some(), ok_with::<M, _>(&r, here.unwrap_or(0)));
     });
@@ -53,7 +53,7 @@ pub fn h_any<M: VMode>() {
 pub fn h_just<M: VMode>() {
     run::<u8, VErr, (), _>(|inp, s0| {
         let t = ch::any_u8();
-        let r = just::<u8, SymIn<u8>, X<VErr>>(t).go::<M>(inp);
+        let r = just::<u8, SymIn<u8>, X<VErr>>(t).gov::<M>(inp);
         let here = tok_here(inp, &s0);
         vcover!(r.is_err() && here.is_some(), "just: token rejected");
         one_token_contract!("just", inp, s0, r, here, here == Some(t), ok_with::<M, _>(&r, t));
@@ -63,7 +63,7 @@ pub fn h_just<M: VMode>() {
 pub fn h_just_char<M: VMode>() {
     run::<char, VErr, (), _>(|inp, s0| {
         let t = ch::any_char();
-        let r = just::<char, SymIn<char>, X<VErr>>(t).go::<M>(inp);
+        let r = just::<char, SymIn<char>, X<VErr>>(t).gov::<M>(inp);
         let here = tok_here(inp, &s0);
         one_token_contract!("just", inp, s0, r, here, here == Some(t), ok_with::<M, _>(&r, t));
     });
@@ -72,7 +72,7 @@ pub fn h_just_char<M: VMode>() {
 pub fn h_one_of<M: VMode>() {
     run::<u8, VErr, (), _>(|inp, s0| {
         let set = [ch::any_u8(), ch::any_u8()];
-        let r = one_of::<[u8; 2], SymIn<u8>, X<VErr>>(set).go::<M>(inp);
+        let r = one_of::<[u8; 2], SymIn<u8>, X<VErr>>(set).gov::<M>(inp);
         let here = tok_here(inp, &s0);
         let member = match here {
             Some(t) => t == set[0] || t == set[1],
@@ -86,7 +86,7 @@ pub fn h_one_of<M: VMode>() {
 pub fn h_none_of<M: VMode>() {
     run::<u8, VErr, (), _>(|inp, s0| {
         let set = [ch::any_u8(), ch::any_u8()];
-        let r = none_of::<[u8; 2], SymIn<u8>, X<VErr>>(set).go::<M>(inp);
+        let r = none_of::<[u8; 2], SymIn<u8>, X<VErr>>(set).gov::<M>(inp);
         let here = tok_here(inp, &s0);
         let ok = match here {
             Some(t) => t != set[0] && t != set[1],
@@ -114,7 +114,7 @@ pub fn h_select<M: VMode>() {
                 None
             }
         });
-        let r = p.go::<M>(inp);
+        let r = p.gov::<M>(inp);
         let here = tok_here(inp, &s0);
         let accept = match here {
             Some(t) => t < thr,
@@ -131,9 +131,55 @@ pub fn h_select<M: VMode>() {
     });
 }
 
+/// any_ref / select_ref: the borrowing twins of any / select (same contract, output is a reference to
+/// the token).
+pub fn h_any_ref<M: VMode>() {
+    run::<u8, VErr, (), _>(|inp, s0| {
+        let r = crate::primitive::any_ref::<SymIn<u8>, X<VErr>>().gov::<M>(inp);
+        let here = tok_here(inp, &s0);
+        let out_ok = match &r {
+            Ok(o) => M::peek(o).map(|x: &u8| Some(*x) == here).unwrap_or(true),
+            Err(()) => false,
+        };
+        one_token_contract!("any_ref", inp, s0, r, here, here.is_some(), out_ok);
+    });
+}
+pub fn h_select_ref<M: VMode>() {
+    run::<u8, VErr, (), _>(|inp, s0| {
+        let thr = ch::any_u8();
+        let p = crate::primitive::select_ref::<_, SymIn<u8>, u16, X<VErr>>(move |t: &u8, e| {
+            let sp = e.span();
+            let st = e.state();
+            st.reg[0] = sp.start;
+            st.reg[1] = sp.end;
+            st.reg[2] = st.believed;
+            st.flag[0] = true;
+            if *t < thr {
+                Some(*t as u16 + 1)
+            } else {
+                None
+            }
+        });
+        let r = p.gov::<M>(inp);
+        let here = tok_here(inp, &s0);
+        let accept = match here {
+            Some(t) => t < thr,
+            None => false,
+        };
+        vcover!(r.is_err() && here.is_some(), "select_ref: token rejected");
+        one_token_contract!("select_ref", inp, s0, r, here, accept, ok_with::<M, _>(&r, here.unwrap_or(0) as u16 + 1));
+        let st = inp.state();
+        vassert!(st.flag[0] == here.is_some(), "C01/select_ref.filter-consulted-iff-a-token-is-present");
+        if st.flag[0] {
+            vassert!(st.reg[0] == s0.pos && st.reg[1] == s0.pos + 1, "C07/select_ref.span-seen-by-filter-is-exactly-the-token");
+            vassert!(st.reg[2] == s0.pos + 1, "C18/select_ref.state-seen-by-filter-reflects-tokens-before-position");
+        }
+    });
+}
+
 pub fn h_end<M: VMode>() {
     run::<u8, VErr, (), _>(|inp, s0| {
-        let r = end::<SymIn<u8>, X<VErr>>().go::<M>(inp);
+        let r = end::<SymIn<u8>, X<VErr>>().gov::<M>(inp);
         let s = snap(inp);
         let alt = alt_full(inp);
         let here = tok_here(inp, &s0);
@@ -157,7 +203,7 @@ pub fn h_end<M: VMode>() {
 
 pub fn h_empty<M: VMode>() {
     run::<u8, VErr, (), _>(|inp, s0| {
-        let r = empty::<SymIn<u8>, X<VErr>>().go::<M>(inp);
+        let r = empty::<SymIn<u8>, X<VErr>>().gov::<M>(inp);
         let s = snap(inp);
         vassert!(r.is_ok(), "C01/empty.always-succeeds");
         vassert!(s.pos == s0.pos && s.nsec == s0.nsec && s.alt == s0.alt && s.believed == s.pos, "C01/empty.changes-nothing");
@@ -181,7 +227,7 @@ pub fn h_custom<M: VMode>() {
                 Err(VErr::mk(77, 0, 0))
             }
         });
-        let r = p.go::<M>(inp);
+        let r = p.gov::<M>(inp);
         let s = snap(inp);
         let ok = inp.state.flag[0];
         vassert!(r.is_ok() == ok, "C01/custom.succeeds-iff-user-code-returns-ok");
@@ -203,7 +249,7 @@ pub fn h_custom<M: VMode>() {
 pub fn h_just_seq2<M: VMode>() {
     run::<u8, VErr, (), _>(|inp, s0| {
         let pat = [ch::any_u8(), ch::any_u8()];
-        let r = just::<[u8; 2], SymIn<u8>, X<VErr>>(pat).go::<M>(inp);
+        let r = just::<[u8; 2], SymIn<u8>, X<VErr>>(pat).gov::<M>(inp);
         let s = snap(inp);
         let alt = alt_full(inp);
         let t0 = if s0.pos < s0.len { Some(inp.cache.tok_at(s0.pos)) } else { None };
@@ -247,6 +293,10 @@ harnesses! {
     none_of_check = h_none_of::<Check>;
     select_emit = h_select::<Emit>;
     select_check = h_select::<Check>;
+    any_ref_emit = h_any_ref::<Emit>;
+    any_ref_check = h_any_ref::<Check>;
+    select_ref_emit = h_select_ref::<Emit>;
+    select_ref_check = h_select_ref::<Check>;
     end_emit = h_end::<Emit>;
     end_check = h_end::<Check>;
     empty_emit = h_empty::<Emit>;
